@@ -29,8 +29,18 @@ func newGoMapObject(value reflect.Value) *goMapObject {
 	}
 }
 
-func (o goMapObject) toKey(rt *runtime, name string) reflect.Value {
+// key converts a property name to a key of the map: a value of the key type itself,
+// which may be a named type (type K string) of the kind stringToReflectValue produces.
+func (o goMapObject) key(name string) (reflect.Value, error) {
 	reflectValue, err := stringToReflectValue(name, o.keyType.Kind())
+	if err != nil {
+		return reflect.Value{}, err
+	}
+	return reflectValue.Convert(o.keyType), nil
+}
+
+func (o goMapObject) toKey(rt *runtime, name string) reflect.Value {
+	reflectValue, err := o.key(name)
 	if err != nil {
 		panic(rt.panicConversionError(err))
 	}
@@ -56,7 +66,7 @@ func goMapGetOwnProperty(obj *object, name string) *property {
 	// being possible to represent as a string, 2) being possible to reconstruct
 	// from a string, and 3) having a meaningful failure case in this context
 	// other than "key does not exist"
-	key, err := stringToReflectValue(name, goObj.keyType.Kind())
+	key, err := goObj.key(name)
 	if err != nil {
 		return nil
 	}
@@ -107,7 +117,7 @@ func goMapDefineOwnProperty(obj *object, name string, descriptor property, throw
 func goMapDelete(obj *object, name string, throw bool) bool {
 	goObj := obj.value.(*goMapObject)
 	// a name that cannot be a key of this map names nothing: there is nothing to delete
-	key, err := stringToReflectValue(name, goObj.keyType.Kind())
+	key, err := goObj.key(name)
 	if err != nil {
 		return true
 	}
